@@ -614,8 +614,10 @@ class Message:
             max_size = 65535
         r = dns.renderer.Renderer(self.id, self.flags, max_size, origin)
         opt_reserve = self._compute_opt_reserve()
-        r.reserve(opt_reserve)
         tsig_reserve = self._compute_tsig_reserve()
+        if opt_reserve + tsig_reserve > max_size:
+            raise dns.exception.TooBig
+        r.reserve(opt_reserve)
         r.reserve(tsig_reserve)
         try:
             for rrset in self.question:
